@@ -524,10 +524,10 @@ theorem rem_op_track (k : RemKeys) (hk : k.Lawful) (r : Rem) (ok : Bool) (op : R
   cases op with
   | start =>
     cases hs : r.started <;> cases ok <;> simp [Rem.op, remOut, track, hs]
-  | addRcpt d co mo rc =>
+  | addRcpt d co mo rc po ml =>
     obtain ⟨hu, hc', _⟩ := hk d
     cases hc : r.hasConn (k.conn d) <;> cases hs : r.started <;> cases co <;> cases ok <;> cases mo <;> cases rc <;>
-      simp [Rem.op, Rem.rcpt, remOut, track, hs, hc, hu, hc']
+      cases po <;> simp [Rem.op, Rem.connFor, Rem.rcpt, remOut, track, hs, hc, hu, hc']
   | body =>
     simp [Rem.op, track]
   | close =>
@@ -536,6 +536,38 @@ theorem rem_op_track (k : RemKeys) (hk : k.Lawful) (r : Rem) (ok : Bool) (op : R
     · simp only [Rem.op, hs, remOut, Bool.not_true, Bool.false_eq_true, if_false, if_true]
       rw [track_relDests]
       simp [track, (hk r.dom).2.2]
+
+/-- **`connectionForDomain`, every way out with an error.**  Whatever the call meets — no connection in the
+delivery, one handed out by the pool or a new one, the MX world at that moment up or down (`connOk`; also DOWN
+while the pool still holds a connection that was opened when it was up), `TakeDest` granted or not, MAIL
+accepted / refused / answered 421 or the session lost (`mailOk`, `mailLost`), on a new or on a pooled
+connection — when the call returns an error, `rd.connections` is what it was and the Group calls the call made
+leave the outstanding permits `o` of the delivery EXACTLY as they were: whatever was taken on the way has been
+given back, under the key it was taken under (`RemKeys.Lawful`).  Holds for any outstanding set `o`, i.e. at any
+point of any delivery. -/
+theorem C11_connectionForDomain_error_releases (k : RemKeys) (hk : k.Lawful) (r : Rem) (takeOk : Bool) (d : Nat)
+    (pooled connOk mailOk mailLost : Bool) (o : Out)
+    (herr : (r.connFor k takeOk d pooled connOk mailOk mailLost).1 = .failed) :
+    (r.connFor k takeOk d pooled connOk mailOk mailLost).2.1 = r ∧
+    track takeOk o (r.connFor k takeOk d pooled connOk mailOk mailLost).2.2 = some o := by
+  obtain ⟨hu, _, _⟩ := hk d
+  revert herr
+  cases hc : r.hasConn (k.conn d) <;> cases pooled <;> cases connOk <;> cases takeOk <;> cases mailOk <;>
+    simp [Rem.connFor, track, hc, hu]
+
+/-- The other ways out: the connection of the delivery is handed back without any Group call; a connection that
+is opened (pooled or new) adds exactly one outstanding destination permit, the one `Close` will give back for
+the new entry of `rd.connections`. -/
+theorem C11_connectionForDomain_ok_holds_one (k : RemKeys) (r : Rem) (takeOk : Bool) (d : Nat)
+    (pooled connOk mailOk mailLost : Bool) (o : Out) :
+    ((r.connFor k takeOk d pooled connOk mailOk mailLost).1 = .cached →
+      (r.connFor k takeOk d pooled connOk mailOk mailLost).2 = (r, [])) ∧
+    ((r.connFor k takeOk d pooled connOk mailOk mailLost).1 = .opened →
+      (r.connFor k takeOk d pooled connOk mailOk mailLost).2.1.conns = (k.conn d, k.close d) :: r.conns ∧
+      track takeOk o (r.connFor k takeOk d pooled connOk mailOk mailLost).2.2
+        = some { o with dest := k.take d :: o.dest }) := by
+  cases hc : r.hasConn (k.conn d) <;> cases pooled <;> cases connOk <;> cases takeOk <;> cases mailOk <;>
+    simp [Rem.connFor, track, hc]
 
 /-- **Remote delivery.**  For every sequence of `Start` / `AddRcpt` (connection reused, connection failure,
 `TakeDest` time-out, MAIL FROM refused by the next hop or the connection lost at MAIL, RCPT accepted / refused /
@@ -712,6 +744,20 @@ example : (Rem.run RemKeys.same { ip := 1, dom := 7 } {}
     (Rem.run RemKeys.same { ip := 1, dom := 7 } {}
       [(.start, true), (.addRcpt 2 true true, true), (.addRcpt 3 true false, true), (.addRcpt 4 true true, false),
        (.close, true)]).map (·.2) = some {} := by
+  decide
+
+/-- The MX world changes between deliveries: the first delivery opens a connection to domain 2 (world up) and
+ends, the connection goes to the pool; the world goes down; the second delivery gets the pooled connection
+(`pooled`, no new connection possible), the server answers MAIL with 421 (`mailLost`): `connectionForDomain`
+fails, the destination permit it took is back at once — and a recipient of a domain without a pooled connection
+fails without any Group call. -/
+example : (Rem.connFor RemKeys.same { ip := 1, dom := 7, started := true } true 2 true false false true).1 = .failed ∧
+    (Rem.run RemKeys.same { ip := 1, dom := 7 } {}
+      [(.start, true), (.addRcpt 2 false false .accepted true true, true),
+       (.addRcpt 3 false true, true)]).map (·.2) = some { msg := [(1, 7)], dest := [] } ∧
+    (Rem.run RemKeys.same { ip := 1, dom := 7 } {}
+      [(.start, true), (.addRcpt 2 false true .accepted true, true)]).map (·.2)
+      = some { msg := [(1, 7)], dest := [2] } := by
   decide
 
 /-- A remote delivery whose next hop answers the FIRST RCPT of a fresh connection with 421 / drops it: the
